@@ -1003,6 +1003,9 @@ impl<'a> CompilerState<'a> {
                 }
             })
             .map_infix(|lhs, op, rhs| {
+                // An error in a sub-expression is propagated (it used to be unwrapped, i.e. a panic)
+                let lhs: Result<i32, Error> = Ok(lhs?);
+                let rhs: Result<i32, Error> = Ok(rhs?);
                 let res = match op.as_rule() {
                     Rule::mul => match lhs.unwrap().checked_mul(rhs.unwrap()) {
                         Some(v) => v,
